@@ -16,6 +16,8 @@ NEUTRALS = [{'name': 'object map hoisted but cleared per segment', 'file': 'part
 
 # changes made by sub-agents that were given only the property text (see /verif/seeded/<id>/): each must stay reported
 SEEDED = [
+    {'name': 'seeded change C09-r5b', 'seed': 'C09-r5b', 'expect': '|IDS-all|'},
+    {'name': 'seeded change C09-r5a', 'seed': 'C09-r5a', 'expect': '|RECURSE-fwd|'},
     {'name': 'seeded change C09-r4b', 'seed': 'C09-r4b', 'expect': '|DEDUP|'},
     {'name': 'seeded change C09-r4a', 'seed': 'C09-r4a', 'expect': '|IDS-all|'},
     {'name': 'seeded change C09-r3', 'seed': 'C09-r3', 'expect': '|RESET-rec|'},
